@@ -36,7 +36,8 @@ RS2LEAN_SPECS = [('words.json', 'WordsSrcGen.lean', 'SrcWords'), ('rdh.json', 'R
                  ('lanechecks.json', 'LaneSrcGen.lean', 'SrcLane'),
                  ('alpidestats.json', 'AlpStatsSrcGen.lean', 'SrcAlpStats'),
                  ('scanner.json', 'ScanSrcGen.lean', 'SrcScan'),
-                 ('linkval.json', 'LinkSrcGen.lean', 'SrcLink')]
+                 ('linkval.json', 'LinkSrcGen.lean', 'SrcLink'),
+                 ('linkrdh.json', 'LinkRdhSrcGen.lean', 'SrcLinkRdh')]
 
 os.makedirs(CACHE, exist_ok=True)
 
